@@ -161,6 +161,10 @@ func runC01(run *core.Run) {
 	core.Parallel(nAst, func(i int) {
 		r := run.Rng("c01-ast", i)
 		g := &gen.DSLGen{R: r}
+		if i%400 == 77 {
+			g.ForceDeep = 40 + r.Intn(50)
+			run.Count("documents_with_40_to_90_nested_groups", 1)
+		}
 		d := g.Doc(false)
 		l := &gen.Layout{R: r, Wild: r.Intn(5) != 0, CRLF: r.Intn(4) == 0, Comments: r.Intn(2) == 0}
 		if i%97 == 5 {
